@@ -122,7 +122,15 @@ def replay_text(scn, ds, what, out, extra=None):
 
 
 def run_one(pool, scn, devs):
-    acc, _ = pool.apply(explore, ((scn.to_json(), [devs], 0, time.time() + 60, False, 0),))
+    import multiprocessing as mp
+    r = pool.apply_async(explore, ((scn.to_json(), [devs], 0, time.time() + 60, False, 0),))
+    try:
+        acc, _ = r.get(timeout=150)
+    except mp.TimeoutError:       # (a worker that never answers: rebuild the pool, nothing was evaluated)
+        pool.reset()
+        acc = Acc()
+        acc.cut = True
+        acc.stalled = 1
     return acc
 
 
@@ -358,6 +366,7 @@ def _run(ctx, pool, procs):
         print(f"[C06] note: the protocol's source lines could not be identified in {total.map_unavailable} schedule(s); "
               "for those only the Spec monitor and the outcome-set comparison were applied")
     ctx.coverage.update(
+        stalled_tasks_abandoned=total.stalled, pool_rebuilt=getattr(pool, "resets", 0),
         mapping_unavailable=total.map_unavailable,
         evaluations=total.runs,
         distinct_nontrivial=len(total.nontrivial),
